@@ -3,6 +3,11 @@ package rcgw
 import (
 	"context"
 	"fmt"
+	"sync"
+	"sync/atomic"
+
+	"github.com/prometheus/client_golang/prometheus"
+	"github.com/thanos-io/thanos/pkg/store"
 
 	"google.golang.org/grpc/codes"
 	"google.golang.org/grpc/status"
@@ -66,7 +71,51 @@ func respChunks(r response) int {
 
 // runC09: series and chunk limits. Success => within limits and complete; the model's merged count
 // above a limit => the call fails with ResourceExhausted.
+// runC09LimiterShared: the limiter of one Series request is shared by the goroutines of all blocks the
+// request reads. This part is NOT scheduled: the reservations of several really parallel goroutines add up
+// to one more than the limit, so exactly the reservation that crosses it must be refused, whatever the
+// interleaving. (Reserve has no seam inside; the kit cannot place a step between a read and a write of
+// the counter, real processors can. A refusal that is missing here is a violation on any schedule; how
+// soon a broken limiter shows it is a matter of luck, which is why the count is large.)
+func runC09LimiterShared(x *simkit.Exec) {
+	goroutines := x.Range("stress.goroutines", 2, 6)
+	per := []int{20000, 60000, 150000}[x.Draw("stress.per", 3)]
+	unit := uint64(x.Range("stress.unit", 1, 3))
+	total := uint64(goroutines*per) * unit
+	failed := prometheus.NewCounter(prometheus.CounterOpts{Name: "failed"})
+	lim := store.NewLimiter(total-1, failed)
+	var refused atomic.Int64
+	var wg sync.WaitGroup
+	start := make(chan struct{})
+	for g := 0; g < goroutines; g++ {
+		wg.Add(1)
+		go func() {
+			defer wg.Done()
+			<-start
+			for i := 0; i < per; i++ {
+				if err := lim.Reserve(unit); err != nil {
+					refused.Add(1)
+				}
+			}
+		}()
+	}
+	close(start)
+	wg.Wait()
+	x.Sample = map[string]any{"limiter_shared_by_goroutines": goroutines, "reservations_each": per, "unit": unit}
+	x.Nontrivial = true
+	x.Probe("c09.limiter_shared_by_parallel_goroutines")
+	if refused.Load() == 0 {
+		x.Violate("over-limit-fails-with-resource-exhausted", "shared-limiter:no-reservation-refused",
+			"%d goroutines made %d reservations of %d each (%d in total) on one Limiter with limit %d and none was refused",
+			goroutines, per, unit, total, total-1)
+	}
+}
+
 func runC09(x *simkit.Exec) {
+	if x.Bool("limiterShared", 1, 12) {
+		runC09LimiterShared(x)
+		return
+	}
 	ds := drawDataset(x, dataOpts{maxBlocks: 4, maxSeries: 10, extSetsMax: 2, allowDup: true, sameExt: x.Bool("sameext", 2, 3)})
 	cfg := drawConfig(x)
 	nclients := x.Range("clients", 1, 2)
